@@ -41,6 +41,9 @@ WELL_KNOWN_KEYS = ['x-message-ttl', 'x-expires', 'x-max-length', 'x-max-length-b
                    'product', 'version', 'platform', 'capabilities', 'information', 'copyright', 'cluster_name', 'connection_name',
                    'publisher_confirms', 'basic.nack', 'consumer_cancel_notify', 'exchange_exchange_bindings', 'count', 'reason',
                    'queue', 'time', 'exchange', 'routing-keys', 'original-expiration', 'X-MESSAGE-TTL', 'x-message-ttl ']
+WELL_KNOWN_NAMES = ['amq.direct', 'amq.fanout', 'amq.topic', 'amq.headers', 'amq.match', 'amq.rabbitmq.reply-to', 'amq.rabbitmq.trace',
+                    'amq.rabbitmq.log', 'amq.gen-', 'amq.', 'amq', 'amqp.x', 'AMQ.x', 'x.amq.y', 'amq.ctag-', 'celery', 'default', '/', 'mqtt-subscription-']
+NAME_CHARS = 'abcdefghijklmnopqrstuvwxyzABCDEFGHIJKLMNOPQRSTUVWXYZ0123456789-_.:@#,/ '
 # strings that mean something to a formatting / templating / escaping step
 FORMAT_STRINGS = ['{}', '{0}', '{1}', '{x}', '{0.name}', '{!r}', '{:>10}', '{{}}', '{', '}', '%s', '%d', '%(x)s', '%', '%%', '${x}', '$x',
                   '\\', '\\n', '\\x00', "'", '"', '`', 'a{b}c', 'key {}', '{0}{1}']
@@ -223,6 +226,8 @@ class Gen:
     def tzinfo(self):
         r = self.r
         mins = r.choice([0, 0, 60, -60, 330, 345, -300, -660, 765, 840, -720, 1, -1, 90])
+        if r.random() < 0.15:      # local-mean-time style offsets: not a whole number of minutes
+            return datetime.timezone(datetime.timedelta(seconds=r.choice([1, -1, 30, -30, -2670, 1172, 3599, -3599, 86399, -86399, 20 * 3600 + 7])))
         return datetime.timezone(datetime.timedelta(minutes=mins))
 
     def datetime_ok(self):
@@ -435,6 +440,12 @@ class Gen:
         k = r.random()
         if k < 0.15:
             return ''
+        if k < 0.27:
+            # names with a meaning to brokers, and the name-like string literals of the current source
+            pool = WELL_KNOWN_NAMES + [m for m in MINED_STRINGS if m and all(c in NAME_CHARS for c in m)]
+            base = r.choice(pool)
+            tail = r.choice(['', '', 'gen-JzTY20BRgKO-HjmUJj0wLg', 'x', '.x'])
+            return (base + tail)[:min(limit, 255)]
         if k < 0.45:
             n = r.choice([limit, limit - 1, 1, min(255, limit)])
             n = min(n, 255)          # shortstr wire limit
